@@ -288,6 +288,7 @@ if "info" in req or "probes" in req:
 
 if "info" in req:
     rows = []
+    SHARED = None
     for c in req["info"]:
         cr = c["crystal"]
         at = Atoms(numbers=cr["numbers"], cell=cr["cell"], scaled_positions=cr["scaled_positions"], pbc=True)
@@ -296,6 +297,17 @@ if "info" in req:
                 a = SymmetryAnalyzer(at, symmetry_tol=c.get("tol", 1e-3))
                 rows.append({"id": c["id"], "number": int(a.get_space_group_number()), "system": a.get_crystal_system(),
                              "bravais": a.get_bravais_lattice(), "pointgroup": a.get_point_group()})
+                # history: ONE analyzer handed every crystal of this process through set_system(); its labels must be those
+                # of the fresh analyzer above
+                try:
+                    if SHARED is None:
+                        SHARED = SymmetryAnalyzer(at.copy(), symmetry_tol=c.get("tol", 1e-3))
+                    else:
+                        SHARED.set_system(at.copy())
+                    rows[-1]["reused"] = {"number": int(SHARED.get_space_group_number()), "system": SHARED.get_crystal_system(),
+                                          "bravais": SHARED.get_bravais_lattice(), "pointgroup": SHARED.get_point_group()}
+                except Exception as e2:
+                    rows[-1]["reused"] = {"error": type(e2).__name__ + ": " + str(e2)[:120]}
                 if req.get("use_then_dump"):
                     # use the library the way callers do; the tables must still be the tables afterwards
                     try:
